@@ -89,6 +89,10 @@ def h_jws(ctx):
     kind = jws_key_kind(name)
     jwk = scen.key(kind)
     seven = path.startswith("7797")
+    # the key may itself say which algorithm it is meant for (RFC 7517 4.4); that never widens what the caller allowed
+    key_alg = isinstance(name, str) and name in JWS_KTY and ctx.choose("key_declares_alg", [False, True])
+    if key_alg:
+        jwk = {**jwk, "alg": name}
 
     def kw():
         if how == "algorithms":
@@ -150,7 +154,7 @@ def h_jws(ctx):
         else:
             r = call(rfc7797.deserialize_json, tok, key, **kw())
     vs = []
-    what = f"JWS {op} {path} alg={name!r} allow-list {form} ({how}) = {L!r}"
+    what = f"JWS {op} {path} alg={name!r} allow-list {form} ({how}) = {L!r}" + (" key declares this alg" if key_alg else "")
     cls = "none" if name == "none" else ("non-string" if not isinstance(name, str) else ("unknown" if name not in JWS_SUPPORTED else name[:2] + "*"))
     if r.ok and not exp:
         vs.append(viol(f"JWS {op} succeeds with an algorithm the caller did not allow [{cls}, list {form}, {how}]", what))
@@ -158,7 +162,7 @@ def h_jws(ctx):
         vs.append(viol(f"JWS {op} fails with an allowed algorithm [{cls}, list {form}, {how}]", f"{what}: {r.exc!r}"))
     elif not r.ok and isinstance(name, str) and not exp and name != "none" and not is_unsupported_error(r.exc) and not how.startswith("plain"):
         vs.append(viol(f"JWS {op}: a disallowed well-typed algorithm name is not reported as unsupported-algorithm [{cls}, {type(r.exc).__name__}]", f"{what}: {r.exc!r}"))
-    return Outcome(f"{op}:{'ok' if r.ok else 'rej'}:{'allowed' if exp else 'not-allowed'}", vs, nontrivial=(name if isinstance(name, str) else repr(name), form, how, op, path))
+    return Outcome(f"{op}:{'ok' if r.ok else 'rej'}:{'allowed' if exp else 'not-allowed'}", vs, nontrivial=(name if isinstance(name, str) else repr(name), form, how, op, path, key_alg))
 
 
 JWE_ALG_SUP = scen.JWE_ALL[:21]
